@@ -749,7 +749,7 @@ func (w *walker) expr(e ast.Expr, held []string, write bool) {
 		if sel, ok := t.Fun.(*ast.SelectorExpr); ok {
 			if inner, ok := sel.X.(*ast.SelectorExpr); ok && atomicMethods[sel.Sel.Name] {
 				if st := w.typeOf(inner.X); st != "" && w.structs[st] != nil && strings.HasPrefix(w.structs[st].fields[inner.Sel.Name], "atomic.") {
-					w.record(inner, sel.Sel.Name != "Load", held, "atomic")
+					w.recordM(inner, sel.Sel.Name != "Load", held, "atomic", sel.Sel.Name)
 					w.expr(inner.X, held, false)
 					for _, a := range t.Args {
 						w.expr(a, held, false)
